@@ -21,7 +21,9 @@ LEVEL = "exploration"
 TECHNIQUE = ("runtime monitor: content oracle from an independent keyring writer/reader + rejection oracle over every single "
              "mutation of the signed content (independent canonicalisation decides what is signed)")
 LEVEL_TEXT = (
-    "Random ETS-like projects (0..N interfaces/devices/groups, non-ASCII passwords, ETS-5 and PKCS#7 padding, random "
+    "A fixed, seed-independent set of structural corner keyrings (every subset of {backbone, interfaces, groups, devices} with 0/1/2 "
+    "entries and empty containers, every order of the top-level sections, every subset of the optional attributes of backbone, "
+    "interface and device alone / before / after a complete sibling, groups without senders or keys), then random ETS-like projects (0..N interfaces/devices/groups, non-ASCII passwords, ETS-5 and PKCS#7 padding, random "
     "serialisation: BOM, line ends, indentation, quotes, attribute order, character references) are written by an independent "
     "writer and loaded by the real sync_load_keyring; the six real ETS exports shipped with the tests are decrypted by the "
     "independent reader. For every file, every element name, attribute name, attribute value, sibling order, nesting, "
@@ -148,7 +150,7 @@ def compare_content(project: W.Project, kr) -> list[tuple[str, object, object]]:
         need("interface-user-id", exp.user_id, got.user_id)
         need("interface-password", exp.password, got.decrypted_password)
         need("interface-authentication", exp.authentication, got.decrypted_authentication)
-        need("interface-senders", {ga: list(s) for ga, s in exp.groups},
+        need("interface-senders", {ga: list(s or []) for ga, s in exp.groups},
              {ga.raw: [s.raw for s in senders] for ga, senders in got.group_addresses.items()})
 
     # group keys
@@ -200,7 +202,7 @@ def compare_content(project: W.Project, kr) -> list[tuple[str, object, object]]:
     unknown = next(a for a in range(1, 70) if a not in {i.ia for i in project.interfaces})
     need("accessor-get_data_secure_group_keys-unknown-receiver", {},
          dict(kr.get_data_secure_group_keys(receiver=IndividualAddress(unknown))))
-    senders = {s: 0 for itf in project.interfaces for _, ss in itf.groups for s in ss}
+    senders = {s: 0 for itf in project.interfaces for _, ss in itf.groups for s in ss or []}
     for dev in exp_devs:
         senders[dev.ia] = dev.sequence_number or 0
     need("accessor-get_data_secure_senders", senders, {ia.raw: seq for ia, seq in kr.get_data_secure_senders().items()})
@@ -469,7 +471,7 @@ def wrong_passwords(password: str, rng) -> list[tuple[str, str]]:
     return out
 
 
-def run_case(ctx, env: Env, source: str, label, root: W.Node, style: W.Style, project: W.Project, rng) -> None:
+def run_case(ctx, env: Env, source: str, label, root: W.Node, style: W.Style, project: W.Project, rng, sweep: bool = True) -> None:
     password = project.password
     thorough = not ctx.quick
     data = W.serialize(root, style)
@@ -520,7 +522,7 @@ def run_case(ctx, env: Env, source: str, label, root: W.Node, style: W.Style, pr
                           f"load_keyring() of {source} keyring {label}: {fld} = {got!r}, expected {expected!r}"[:400])
 
     # ---- B. wrong passwords ------------------------------------------------------------
-    for how, pw in wrong_passwords(password, rng):
+    for how, pw in wrong_passwords(password, rng)[: None if sweep else 2]:
         outcome, res = env.load(data, pw)
         ctx.count("wrong_password_loads")
         ctx.distinct(("wrongpw", source, how, outcome))
@@ -553,6 +555,9 @@ def run_case(ctx, env: Env, source: str, label, root: W.Node, style: W.Style, pr
         else:
             ctx.count("wrong_password_rejected_other_exception")
             ctx.count("rejected_with_" + outcome.split(":")[1])
+
+    if not sweep:
+        return
 
     # ---- C. single mutations -------------------------------------------------------------
     n_mut = 0
@@ -692,6 +697,19 @@ def gen_case(ctx, env, index: int) -> None:
     run_case(ctx, env, "generated", index, root, style, project, rng)
 
 
+def corner_case(ctx, env, number: int, label: str, project: W.Project, order: str) -> None:
+    """Deterministic structural corner keyring: same file content model on every seed and tier."""
+    rng = random.Random(f"C31/corner/{label}")
+    root = W.build_tree(project, rng, order=order)
+    style = W.Style(bom=number % 2 == 0, newline=("\r\n", "\n")[number % 3 == 0])
+    ctx.count("corner_keyrings")
+    if project.backbone is not None and project.backbone.key is not None and not project.interfaces \
+            and not project.group_keys and not project.devices:
+        ctx.count("corner_backbone_key_without_any_other_entry")
+    sweep = (not ctx.quick) or number % 10 == ctx.seed % 10
+    run_case(ctx, env, "corner", label, root, style, project, rng, sweep=sweep)
+
+
 def ets_case(ctx, env, name: str, data: bytes) -> None:
     rng = random.Random(f"C31/{ctx.seed}/ets/{name}")
     pw = ETS_PASSWORDS.get(name, ETS_DEFAULT_PASSWORD)
@@ -726,7 +744,7 @@ def run(ctx):
     ctx.rule = ("one case = one keyring file (generated from a per-index seeded random project, or an ETS export) loaded untouched, with "
                 "wrong passwords and with every single mutation; distinct = (source, mutation kind, element, attribute, how, judged, outcome) "
                 "and (project shape, serialisation style)")
-    ctx.require("valid_files_loaded", "secrets_decrypted", "keys_decrypted", "sender_lists_compared", "wrong_password_rejected",
+    ctx.require("corner_keyrings", "corner_backbone_key_without_any_other_entry", "valid_files_loaded", "secrets_decrypted", "keys_decrypted", "sender_lists_compared", "wrong_password_rejected",
                 "tamper_mutations", "tamper_element-name", "tamper_attr-name", "tamper_attr-value", "tamper_swap-siblings",
                 "tamper_delete-element", "tamper_insert-element", "tamper_move-attr", "tamper_rejected_InvalidSecureConfiguration")
     files = ets_files()
@@ -738,11 +756,15 @@ def run(ctx):
                 ctx.inconclusive(f"only {len(files)} ETS exports found under the xknx tests")
             if not self_test(ctx, files):
                 return
-            cases = [("gen", i) for i in range(n_gen)] + [("ets", f) for f in files]
+            corners = W.corner_projects()
+            cases = ([("corner", (i, *c)) for i, c in enumerate(corners)] + [("gen", i) for i in range(n_gen)]
+                     + [("ets", f) for f in files])
             for n, (kind, what) in enumerate(cases):
                 if not ctx.mine(n):
                     continue
-                if kind == "gen":
+                if kind == "corner":
+                    corner_case(ctx, env, *what)
+                elif kind == "gen":
                     gen_case(ctx, env, what)
                 else:
                     ets_case(ctx, env, what[0], what[1])
@@ -760,6 +782,10 @@ def replay(ctx, witness):
         with memo_hash():
             if witness.get("source") == "generated":
                 gen_case(ctx, env, int(witness["case"]))
+            elif witness.get("source") == "corner":
+                for i, (label, project, order) in enumerate(W.corner_projects()):
+                    if label == witness.get("case"):
+                        corner_case(ctx, env, i, label, project, order)
             else:
                 name = witness.get("case") or witness.get("file")
                 for fname, data in ets_files():
